@@ -1,4 +1,6 @@
 From SC Require Import Base.Prelude Traits.FanSpeed.
+Local Open Scope string_scope.
+Local Open Scope Z_scope.
 
 Lemma find_name_spec n : forall ps i j p, find_name n i ps = Some (j, p) ->
   0 <= j - i /\ nth_error ps (Z.to_nat (j - i)) = Some (n, p).
@@ -140,9 +142,9 @@ Proof.
   unfold derive. repeat split.
   - intros -> Hne. cbn. destruct (String.eqb_spec (f_preset old) (f_preset new)); [contradiction|reflexivity].
   - intros Hp Hi. destruct (Z.eqb_spec (f_idx old) (f_idx new)); [contradiction|]. cbn [negb].
-    destruct Hp as [->|->]; [now cbn|]. rewrite String.eqb_refl. cbn. now rewrite andb_false_r.
+    destruct Hp as [-> | ->]; [now cbn|]. rewrite String.eqb_refl. cbn. now rewrite andb_false_r.
   - intros Hp -> Hc. rewrite Z.eqb_refl. cbn [negb]. destruct (Z.eqb_spec (f_pct old) (f_pct new)); [contradiction|].
-    cbn [negb orb]. destruct Hp as [->|->]; [now cbn|]. rewrite String.eqb_refl. cbn. now rewrite andb_false_r.
+    cbn [negb orb]. destruct Hp as [-> | ->]; [now cbn|]. rewrite String.eqb_refl. cbn. now rewrite andb_false_r.
 Qed.
 
 (* ---- the code as first written ---- *)
